@@ -114,6 +114,8 @@ func (fc *FnCtx) loopHeader(li *loopInfo, st *State) *State {
 	g := fc.curReach
 	where := fmt.Sprintf("loop%d", li.ord)
 	ls := li.ls
+	fc.specLoop = li
+	li.preState = st
 	if ls == nil {
 		ls = &spec.LoopSpec{}
 		if !fc.dry {
@@ -164,7 +166,7 @@ func (fc *FnCtx) loopHeader(li *loopInfo, st *State) *State {
 			switch {
 			case vs == smt.Slice:
 				fc.S.Assert(smt.Ge(smt.SlArr(nv), wm), "loop-carried slice lies above the watermark")
-			case vs == smt.Int && fc.refKeys[k]:
+			case vs == smt.Int && fc.refValuedKey(k):
 				fc.S.Assert(smt.Ge(nv, wm), "loop-carried reference lies above the watermark")
 			}
 			fc.setHeapQuiet(st2, k, smt.Store(fc.getHeap(st2, k, vs), ref, nv))
@@ -238,9 +240,19 @@ func (fc *FnCtx) loopFrame(li *loopInfo, ls *spec.LoopSpec, pre, now *State, ass
 		}
 		_, vs, _ := smt.ArrParts(hs)
 		r := smt.Const("r!f", smt.Int)
-		notAllowed := []*smt.Term{smt.Ge(r, smt.IntLit(0))}
+		// every object that existed when the loop was entered: pre-existing ones (>= 0) and
+		// those this function allocated before the loop (above the loop's watermark)
+		exists := smt.Ge(r, smt.IntLit(0))
+		if li.wm != nil {
+			exists = smt.Ge(r, li.wm)
+		}
+		notAllowed := []*smt.Term{exists}
 		for _, a := range allowed[k] {
 			notAllowed = append(notAllowed, smt.Neq(r, a))
+		}
+		// fresh objects written at literal references are havocked one by one at the header
+		for _, rn := range smt.SortedKeys(li.writtenRefs[k]) {
+			notAllowed = append(notAllowed, smt.Neq(r, li.writtenRefs[k][rn]))
 		}
 		a0 := fc.S.Name("fr0", fc.getHeap(li.preLoop, k, vs))
 		a1 := fc.S.Name("fr1", fc.getHeap(now, k, vs))
@@ -266,6 +278,7 @@ func (fc *FnCtx) backEdges(b *ssa.BasicBlock, st *State) {
 		}
 		g := fc.edgeGuard(b, s)
 		where := fmt.Sprintf("loop%d.back%d", li.ord, b.Index)
+		fc.specLoop = li
 		// bind phis to the values flowing along this edge
 		saved := map[ssa.Value]Val{}
 		var phis []*ssa.Phi
@@ -347,8 +360,9 @@ func (fc *FnCtx) mapUpdate(x *ssa.MapUpdate, st *State, g *smt.Term, where strin
 	v := fc.term(fc.val(x.Value))
 	d := fc.readKey(st, dom, m, smt.Arr(ks, smt.Bool))
 	a := fc.readKey(st, val, m, smt.Arr(ks, vs))
-	fc.writeKey(st, dom, m, smt.Store(d, k, smt.True))
-	fc.writeKey(st, val, m, smt.Store(a, k, v))
+	// named, so that reads keep the shape select(array, key) that contract patterns use
+	fc.writeKey(st, dom, m, fc.S.Name("mdom", smt.Store(d, k, smt.True)))
+	fc.writeKey(st, val, m, fc.S.Name("mval", smt.Store(a, k, v)))
 }
 
 func (fc *FnCtx) lookup(x *ssa.Lookup, st *State, g *smt.Term, where string) Val {
@@ -385,13 +399,73 @@ func (fc *FnCtx) lookup(x *ssa.Lookup, st *State, g *smt.Term, where string) Val
 	return Val{T: t, GoT: x.Type()}
 }
 
+// iterInfo describes a map iterator (the value of an ssa.Range over a map).
+type iterInfo struct {
+	ref    *smt.Term // the iterator object; its visited set lives in heap key visKey
+	m      *smt.Term // the map
+	mt     *types.Map
+	dom0   *smt.Term // the map's domain when the iteration started
+	visKey string
+}
+
+// rangeInit starts an iteration. Over a map with modelled key and value types
+// the iterator carries a ghost *visited set* (heap key "iter:<key sort>",
+// indexed by the iterator object, so it is loop-carried state like any other
+// heap location); see rangeNext. Strings are abstracted.
 func (fc *FnCtx) rangeInit(x *ssa.Range, st *State, g *smt.Term, where string) Val {
-	fc.abstr("range over map/string (iteration abstracted: any key, any number of times)")
+	mt, isMap := x.X.Type().Underlying().(*types.Map)
+	if isMap {
+		if dom, _, ks, _, ok := fc.mapKeys(mt); ok {
+			ref := fc.newRef()
+			m := fc.term(fc.val(x.X))
+			visKey := "iter:" + string(ks)
+			e := fc.S.Fresh("novisit", smt.Arr(ks, smt.Bool))
+			k := smt.Const("k!e", ks)
+			fc.S.Assert(smt.Forall([]*smt.Term{k}, smt.Not(smt.Select(e, k)), []*smt.Term{smt.Select(e, k)}), "")
+			fc.writeKey(st, visKey, ref, e)
+			d0 := fc.S.Name("itdom0", fc.readKey(st, dom, m, smt.Arr(ks, smt.Bool)))
+			if fc.iters == nil {
+				fc.iters = map[*ssa.Range]*iterInfo{}
+			}
+			fc.iters[x] = &iterInfo{ref: ref, m: m, mt: mt, dom0: d0, visKey: visKey}
+			fc.Used["map iteration: every entry present from the start to the end of the loop is produced exactly once, in any order; entries are read at the time they are produced (Go specification, For statements with range clause)"] = true
+			return Val{T: ref, GoT: x.Type()}
+		}
+	}
+	fc.abstr("range over string or unmodelled map (iteration abstracted: any key, any number of times)")
 	return Val{T: fc.newRef(), GoT: x.Type()}
 }
 
+// rangeNext produces the next entry of a map iteration: ok implies that the
+// key is in the map now and has not been produced before, and the value is the
+// map's current value; !ok implies that every key that was in the map at the
+// start and still is has been produced.
 func (fc *FnCtx) rangeNext(x *ssa.Next, st *State, g *smt.Term, where string) Val {
-	return fc.freshVal("next", x.Type())
+	r, _ := x.Iter.(*ssa.Range)
+	it := fc.iters[r]
+	if it == nil {
+		return fc.freshVal("next", x.Type())
+	}
+	dom, val, ks, vs, _ := fc.mapKeys(it.mt)
+	D := fc.readKey(st, dom, it.m, smt.Arr(ks, smt.Bool))
+	V := fc.readKey(st, val, it.m, smt.Arr(ks, vs))
+	vis := fc.S.Name("itvis", fc.readKey(st, it.visKey, it.ref, smt.Arr(ks, smt.Bool)))
+	ok := fc.S.Fresh("itok", smt.Bool)
+	kv := fc.freshVal("itkey", it.mt.Key())
+	k := fc.term(kv)
+	fc.assume(g, smt.Implies(ok, smt.And(smt.Neq(it.m, smt.IntLit(0)), smt.Select(D, k), smt.Not(smt.Select(vis, k)))), "map iteration: the produced key is in the map and was not produced before")
+	q := smt.Const("k!it", ks)
+	fc.assume(g, smt.Implies(smt.Not(ok), smt.Forall([]*smt.Term{q},
+		smt.Implies(smt.And(smt.Neq(it.m, smt.IntLit(0)), smt.Select(it.dom0, q), smt.Select(D, q)), smt.Select(vis, q)),
+		[]*smt.Term{smt.Select(vis, q)}, []*smt.Term{smt.Select(it.dom0, q)})), "map iteration: at the end every remaining entry has been produced")
+	var v Val
+	if est, isS := it.mt.Elem().Underlying().(*types.Struct); isS && est.NumFields() == 0 {
+		v = fc.zeroVal(it.mt.Elem())
+	} else {
+		v = fc.loaded(fc.S.Define("itval", smt.Select(V, k)), it.mt.Elem())
+	}
+	fc.writeKey(st, it.visKey, it.ref, fc.S.Name("itvis", smt.Ite(ok, smt.Store(vis, k, smt.True), vis)))
+	return Val{Fs: []Val{{T: ok, GoT: types.Typ[types.Bool]}, kv, v}, GoT: x.Type()}
 }
 
 // aboveWatermark: references held by loop-carried values (header phis and
@@ -436,6 +510,11 @@ func (fc *FnCtx) aboveWatermark(li *loopInfo, st *State, wm *smt.Term) {
 
 // refValuedKey: does heap key k hold references (as opposed to integers)?
 func (fc *FnCtx) refValuedKey(k string) bool {
+	if strings.HasPrefix(k, "ghost:") {
+		if g, ok := fc.P.Ghost[k[len("ghost:"):]]; ok && g.Type == "ref" && g.Index == "" {
+			return true
+		}
+	}
 	return fc.refKeys[k]
 }
 
